@@ -1144,34 +1144,30 @@ def evaluate__xml_to_json(self: XPathFunction, context: ta.ContextType = None) \
                 raise self.error('FOJS0006', f"{child} has an invalid attribute {name!r}")
 
         def check_escapes(s: str) -> None:
-            if re.search(r'(?<!\\)\\(?![urtnfb/"\\])', s):
+            # what is left after removing the valid escape sequences cannot contain a backslash
+            if '\\' in re.sub(r'\\(?:[rtnfb/"\\]|u[0-9a-fA-F]{4})', '', s):
                 raise self.error('FOJS0007', f"invalid escape sequence in {s!r}")
-
-            hex_digits = '0123456789abcdefABCDEF'
-            for chunk in s.split('\\u')[1:]:
-                if len(chunk) < 4 or any(x not in hex_digits for x in chunk[:4]):
-                    raise self.error('FOJS0007', f"invalid unicode escape in {s!r}")
 
         for child in elements:
             if callable(child.tag):
                 continue
 
             if child.tag == NULL_TAG:
-                check_attributes('key')
+                check_attributes('key', 'escaped-key')
                 if child.text is not None:
                     msg = 'a null element cannot have a text value'
                     raise self.error('FOJS0006', msg)
                 chunks.append('null')
 
             elif child.tag == BOOLEAN_TAG:
-                check_attributes('key')
+                check_attributes('key', 'escaped-key')
                 if BooleanProxy(''.join(etree_iter_strings(child))):
                     chunks.append('true')
                 else:
                     chunks.append('false')
 
             elif child.tag == NUMBER_TAG:
-                check_attributes('key')
+                check_attributes('key', 'escaped-key')
                 value = ''.join(etree_iter_strings(child))
                 try:
                     if self.parser.xsd_version == '1.0':
@@ -1198,18 +1194,19 @@ def evaluate__xml_to_json(self: XPathFunction, context: ta.ContextType = None) \
                     raise self.error('FOJS0006', msg)
 
                 value = ''.join(etree_iter_strings(child))
-                check_escapes(value)
 
                 escaped = child.get('escaped', '0').strip()
                 if escaped not in BOOLEAN_VALUES:
                     msg = f"{child} has an invalid value for 'escaped' attribute"
                     raise self.error('FOJS0006', msg)
+                elif escaped in ('true', '1'):
+                    check_escapes(value)  # only an escaped string contains JSON escapes
 
                 value = escape_json_string(value, escaped in ('true', '1'))
                 chunks.append(f'"{value}"')
 
             elif child.tag == ARRAY_TAG:
-                check_attributes('key')
+                check_attributes('key', 'escaped-key')
                 if len(child):
                     if child.text is not None and child.text.strip() or \
                             any(e.tail and e.tail.strip() for e in child):
@@ -1227,12 +1224,12 @@ def evaluate__xml_to_json(self: XPathFunction, context: ta.ContextType = None) \
                         msg = f'object invalid key type {type(key)}'
                         raise self.error('FOJS0006', msg)
 
-                    check_escapes(key)
-
                     escaped_key = e.get('escaped-key', '0').strip()
                     if escaped_key not in BOOLEAN_VALUES:
                         msg = f"{e} has an invalid value for 'escaped-key' attribute"
                         raise self.error('FOJS0006', msg)
+                    elif escaped_key in ('true', '1'):
+                        check_escapes(key)
 
                     key = escape_json_string(key, escaped=escaped_key in ('true', '1'))
                     map_chunks.append(f'"{key}":{elem_to_json((e,))}')
